@@ -69,7 +69,7 @@ def sweep(chk, case, ks, sigs):
     n = 0
     for k in ks:
         sig = sigs[k % len(sigs)]
-        obs = run_impl(case, inject={"k": k, "sig": sig, "vanish_first": k % 3 == 0})
+        obs = run_impl(case, inject={"k": k, "sig": sig, "vanish_first": k % 3 == 0, "vanish_last": k % 2 == 1})
         chk.coverage["evaluations"] += 1
         if obs.crash is not None:
             f = (obs.abort or {}).get("fired") or {}
@@ -188,7 +188,7 @@ def run(tier, seed, replay=None):
         inp = replay["input"]
         case = Case.from_json(inp["case"])
         inj = {"k": None if inp.get("popen_end") else inp["k"], "sig": inp.get("sig", int(signal.SIGINT)), "popen_end": bool(inp.get("popen_end")), "spawn_index": inp.get("spawn_index", 2),
-               "vanish_first": (inp.get("k") or 1) % 3 == 0}
+               "vanish_first": (inp.get("k") or 1) % 3 == 0, "vanish_last": (inp.get("k") or 0) % 2 == 1}
         obs = run_impl(case, inject=inj)
         print("replay: abort observation = %r" % (obs.abort,))
         judge(chk, case, obs, inp.get("k"), inj["sig"])
